@@ -73,10 +73,12 @@ pub struct CaseResult {
     pub fault_points: u64,
     /// the exact case that failed (e.g. with the enumerated fault placed), if different from the input
     pub failing: Option<Case>,
+    /// a violation of a class that does not invalidate the rest of the run (the run went on); reported once per batch
+    pub soft: Option<crate::run::Violation>,
 }
 
 impl CaseResult {
     pub fn from_outcome(o: crate::run::Outcome) -> CaseResult {
-        CaseResult { violation: o.violation, harness_error: o.harness_error, chain: o.chain, executions: 1, fault_points: 0, failing: None }
+        CaseResult { violation: o.violation, harness_error: o.harness_error, chain: o.chain, executions: 1, fault_points: 0, failing: None, soft: None }
     }
 }
